@@ -264,6 +264,106 @@ func steerSignalGap(workers int, emit func(string)) {
 	flushNotes(e.rec, emit)
 }
 
+// steerRestartStale: all workers are busy, a callback for another group is queued but never
+// reached, Shutdown drops it; after Serve again a submission to that group must run.
+func steerRestartStale(workers int, emit func(string)) {
+	e, err := newSteer(workers)
+	if err != nil {
+		return
+	}
+	defer e.close()
+	emit("reset")
+	unblock := make(chan struct{})
+	var started sync.WaitGroup
+	for i := 0; i < workers; i++ {
+		started.Add(1)
+		e.submit(fmt.Sprintf("busy%d", i), "", func(int) { started.Done(); <-unblock })
+	}
+	started.Wait()
+	_, ret, _ := e.submit("late", "", nil) // queued behind the busy workers, never reached
+	waitCh(ret, "queued WithGroup return")
+	from := e.numNotes()
+	sdDone := make(chan bool, 1)
+	go func() { sdDone <- e.shutdown() }()
+	e.waitNote("c.broadcast", from)
+	close(unblock)
+	if !<-sdDone {
+		flushNotes(e.rec, emit)
+		return
+	}
+	// serve the same service again
+	e.conn = recconn.New()
+	served := make(chan struct{})
+	e.s.SetOnServe(func(*res.Service) { close(served) })
+	e.done = make(chan error, 1)
+	go func() { e.done <- e.s.Serve(e.conn) }()
+	if waitCh(served, "second serve") != nil {
+		e.rec.add("h.serve.hung", "", 0)
+		flushNotes(e.rec, emit)
+		return
+	}
+	ran := make(chan struct{})
+	_, ret2, _ := e.submit("late", "", func(int) { close(ran) })
+	waitCh(ret2, "WithGroup after restart")
+	select {
+	case <-ran:
+	case <-time.After(2 * time.Second):
+	}
+	e.rec.add("h.quiescent", "", 1)
+	e.shutdown()
+	flushNotes(e.rec, emit)
+}
+
+// steerServeDuringShutdown: while Shutdown waits for an in-flight callback, Serve is called
+// again; it must be refused (the service is not stopped yet) and Shutdown must complete.
+func steerServeDuringShutdown(workers int, emit func(string)) {
+	e, err := newSteer(workers)
+	if err != nil {
+		return
+	}
+	defer e.close()
+	emit("reset")
+	unblock := make(chan struct{})
+	busy := make(chan struct{})
+	e.submit("busy", "", func(int) { close(busy); <-unblock })
+	waitCh(busy, "busy callback")
+	from := e.numNotes()
+	sdDone := make(chan bool, 1)
+	go func() { sdDone <- e.shutdown() }()
+	e.waitNote("c.broadcast", from)
+	// retry Serve on a fresh connection while the shutdown is draining (and only then)
+	conn2 := recconn.New()
+	e.s.SetOnServe(func(*res.Service) {})
+	stop := make(chan struct{})
+	retryDone := make(chan struct{})
+	go func() {
+		defer close(retryDone)
+		for {
+			select {
+			case <-stop:
+				return
+			default:
+			}
+			if err := e.s.Serve(conn2); err == nil {
+				return // it was accepted, served, and has been shut down again
+			}
+			time.Sleep(500 * time.Microsecond)
+		}
+	}()
+	time.Sleep(15 * time.Millisecond)
+	close(stop)
+	time.Sleep(2 * time.Millisecond)
+	close(unblock)
+	<-sdDone
+	// if the retried Serve was accepted it may be serving now: stop it so that nothing leaks
+	go e.s.Shutdown()
+	select {
+	case <-retryDone:
+	case <-time.After(3 * time.Second):
+	}
+	flushNotes(e.rec, emit)
+}
+
 func steerAll(emit func(string)) {
 	for _, w := range []int{1, 2, 3} {
 		steerLateSubmit(w, "slow", emit)
@@ -271,5 +371,7 @@ func steerAll(emit func(string)) {
 		steerRetireAppend(w, true, emit)
 		steerRetireAppend(w, false, emit)
 		steerSignalGap(w, emit)
+		steerRestartStale(w, emit)
+		steerServeDuringShutdown(w, emit)
 	}
 }
